@@ -80,11 +80,22 @@ func H_C18_limit() {
 
 	// one transfer of A to user1 with a passthrough payload of arbitrary length
 	pt := verif.ZeroBytes("passthrough", verif.Bound("maxlen"))
-	attr, err := fwdtypes.NewInternalAttributes(user1.String())
-	if err != nil {
-		return
+	// (the limit is about the packet, whatever route it names)
+	var f *core.Forwarding
+	route := verif.Choose("route", 3)
+	switch route {
+	case routeCCTP:
+		f, err = fwdtypes.NewCCTPForwarding(5, []byte{1, 2, 3}, nil, pt)
+	case routeHyp:
+		f, err = fwdtypes.NewHyperlaneForwarding(make([]byte, 32), 5, make([]byte, 32), nil, "", math.ZeroInt(), sdk.Coin{Denom: "uusdc", Amount: math.ZeroInt()}, pt)
+	default:
+		var attr *fwdtypes.InternalAttributes
+		attr, err = fwdtypes.NewInternalAttributes(user1.String())
+		if err != nil {
+			return
+		}
+		f, err = core.NewForwarding(core.PROTOCOL_INTERNAL, attr, pt)
 	}
-	f, err := core.NewForwarding(core.PROTOCOL_INTERNAL, attr, pt)
 	if err != nil {
 		return
 	}
@@ -99,11 +110,11 @@ func H_C18_limit() {
 		verif.Cover("over-limit")
 		verif.Assert(!ack.Success(), "over-limit-is-refused")
 		// (whether the refusal comes before or after the ICS-20 credit is mechanism: under E1 the error ack undoes the credit)
-		verif.Assert(len(w.Int.reqs) == 0, "over-limit-is-not-forwarded")
+		verif.Assert(len(w.Int.reqs)+len(w.CCTP.reqs)+len(w.Hyp.reqs) == 0, "over-limit-is-not-forwarded")
 	} else {
 		verif.Cover("within-limit")
 		verif.Assert(ack.Success(), "within-limit-is-never-refused")
-		verif.Assert(w.L.Bal(user1, nativeDenom).Equal(A), "within-limit-transfer-delivered")
+		verif.Assert(len(w.Int.reqs)+len(w.CCTP.reqs)+len(w.Hyp.reqs) == 1, "within-limit-transfer-forwarded")
 	}
 	if current == 0 && len(pt) > 0 {
 		verif.Assert(!ack.Success(), "default-limit-accepts-only-empty-passthrough")
